@@ -12,6 +12,12 @@ for scheme in ('simple', 'hive'):
     try:
         fn = os.path.join(d, 'a.parq') if scheme == 'simple' else d
         fastparquet.write(fn, pd.DataFrame({'x': [1, 2, 3]}), file_scheme=scheme)
+        for odd in (1e30, float('inf')):
+            try:
+                fastparquet.write(fn, pd.DataFrame({'x': [odd]}), file_scheme=scheme, append=True)
+                bad.append('%s: %r appended to an int column without complaint' % (scheme, odd))
+            except ValueError:
+                pass
         try:
             fastparquet.write(fn, pd.DataFrame({'x': [4.5]}), file_scheme=scheme, append=True)
             got = fastparquet.ParquetFile(fn).to_pandas().x.tolist()
